@@ -37,6 +37,7 @@ type c19Signer struct {
 
 type c19Fixtures struct {
 	absA, absB, absC, absInvalid *refmodel.Claims
+	absU                         *refmodel.Claims // profile-2 claims under a profile name that is NOT in the register, every optional claim
 	k1, k2, k384                 *fixtures.Key
 	signers                      []c19Signer
 	tokens                       []struct {
@@ -54,6 +55,32 @@ func flipAt(tok []byte, needle []byte, off int) []byte {
 	out := append([]byte{}, tok...)
 	out[i+off] ^= 0x01
 	return out
+}
+
+var c19NumOps int
+
+const c19UnregisteredName = "http://example.com/psa/in-house/1.0.0"
+
+// c19DecodePayload: the decoding of a covered payload; for the unregistered profile name (which the dispatching decoder
+// refuses) the decoding into fresh profile-2 claims carrying that name.
+func c19DecodePayload(payload []byte) (psatoken.IClaims, error) {
+	y, err := psatoken.DecodeClaimsFromCBOR(payload)
+	if err == nil {
+		return y, nil
+	}
+	x, nerr := psatoken.NewClaims(refmodel.P2Name)
+	if nerr != nil {
+		return nil, err
+	}
+	p2 := x.(*psatoken.P2Claims)
+	p2.CanonicalProfile = c19UnregisteredName
+	if uerr := p2.UnmarshalCBOR(payload); uerr != nil {
+		return nil, err
+	}
+	if n, perr := p2.GetProfile(); perr != nil || n != c19UnregisteredName {
+		return nil, err
+	}
+	return p2, nil
 }
 
 func newC19Fixtures() *c19Fixtures {
@@ -144,6 +171,12 @@ func newC19Fixtures() *c19Fixtures {
 	add("signed-by-k1-claims-map-wrapped-in-a-byte-string", envelope(vA.prot, nil, wrapped, rawSign(f.k1, "ES256", vA.prot, wrapped)), false)
 	wrapped24 := mcbor.Encode(mcbor.Tg(24, mcbor.B(vA.payload)))
 	add("signed-by-k1-claims-map-in-tag-24", envelope(vA.prot, nil, wrapped24, rawSign(f.k1, "ES256", vA.prot, wrapped24)), false)
+	// a genuinely signed token of a profile name that is not in the register, without optional claims: no decoder for it
+	u, uFew := *cl[3], *cl[0]
+	u.Canon, u.Profile = c19UnregisteredName, sp(c19UnregisteredName)
+	uFew.Canon, uFew.Profile = c19UnregisteredName, sp(c19UnregisteredName)
+	f.absU = &u
+	add("token(U-without-optionals: profile not in the register,k1)", mkTok(&uFew, f.k1), false)
 	nullPayload := []byte{0xf6}
 	add("signed-by-k1-null-payload", envelope(vA.prot, nil, nullPayload, rawSign(f.k1, "ES256", vA.prot, nullPayload)), false)
 	return f
@@ -160,7 +193,8 @@ func c19System() bfs.System {
 	}
 	var ops []opDef
 	ops = append(ops, opDef{"SetClaims(A)", "set", 0}, opDef{"SetClaims(B)", "set", 1}, opDef{"SetClaims(invalid)", "set", 2},
-		opDef{"SetClaims(W: derived profile, exactly 24 claims)", "set", 3})
+		opDef{"SetClaims(W: derived profile, exactly 24 claims)", "set", 3},
+		opDef{"SetClaims(U: profile not in the register, every optional claim)", "set", 4})
 	for i, s := range fx.signers {
 		ops = append(ops, opDef{"Sign(" + s.name + ")", "sign", i})
 	}
@@ -180,7 +214,7 @@ func c19System() bfs.System {
 	_ = nT
 	wide := *fx.absC
 	wide.Canon, wide.Profile = ExtWideName, sp(ExtWideName)
-	abs := []*refmodel.Claims{fx.absA, fx.absB, fx.absInvalid, &wide}
+	abs := []*refmodel.Claims{fx.absA, fx.absB, fx.absInvalid, &wide, fx.absU}
 	run := func(hist []int) bfs.Outcome {
 		var out bfs.Outcome
 		ev := &psatoken.Evidence{}
@@ -260,7 +294,16 @@ func c19System() bfs.System {
 					if s.good != nil && last {
 						// the token decodes, verifies with the signer's key and carries the attached claims
 						ev2, derr := psatoken.DecodeEvidenceFromCOSE(tok)
-						if derr != nil {
+						if n, _ := ev.Claims.GetProfile(); derr != nil && n == c19UnregisteredName {
+							// no decoder is registered for this name: the token is read with the independent reader instead
+							if vw, perr := viewSign1(tok); perr != nil {
+								fail("C19:own-token-does-not-decode", "%s: %v", op.name, perr)
+							} else if y, yerr := c19DecodePayload(vw.payload); yerr != nil {
+								fail("C19:own-token-does-not-decode", "%s: payload: %v", op.name, yerr)
+							} else if g1, g2 := getterVector(y), getterVector(ev.Claims); g1 != g2 {
+								fail("C19:own-token-other-claims", "token carries claims other than the attached ones\n token    %s\n attached %s", g1, g2)
+							}
+						} else if derr != nil {
 							fail("C19:own-token-does-not-decode", "%s: %v", op.name, derr)
 						} else {
 							if verr := ev2.Verify(s.good.Pub); verr != nil {
@@ -366,7 +409,7 @@ func c19System() bfs.System {
 				continue
 			}
 			if !replaced && ev.Claims != nil {
-				y, derr := psatoken.DecodeClaimsFromCBOR(payload)
+				y, derr := c19DecodePayload(payload)
 				if derr != nil {
 					fail("C19:verified-payload-not-claims", "Verify(%s) succeeds, claims attached, but the covered payload does not decode: %v", k.Name, derr)
 				} else if g1, g2 := getterVector(ev.Claims), getterVector(y); g1 != g2 {
@@ -400,6 +443,7 @@ func c19System() bfs.System {
 		out.Obs = fmt.Sprintf("verify(k1)=%v verify(k2)=%v verify(k384)=%v claims=%s json=%x", v1 == nil, v2 == nil, v3 == nil, claims, sha256.Sum256([]byte(cj)))
 		return out
 	}
+	c19NumOps = len(ops)
 	return bfs.System{NumOps: len(ops), OpName: func(i int) string { return ops[i].name }, Run: run}
 }
 
@@ -416,9 +460,9 @@ func init() {
 			d = 4
 		}
 		exploreBFS(r, "c19.evidence", bfs.Options{Dedup: false, MaxDepth: d, Deadline: dl})
-		r.Set("rule", "BFS over operation histories on one real Evidence (33 operations incl. 5 faulty signers, 10 decode inputs, in-place and out-of-band claim changes, Verify as an operation); state = history, deduplicated by a canonical key read from the real object (claims getters, replaced/failed flags, envelope payload/protected, signature class); invariants of C19 evaluated in every state; distinct = distinct canonical states; non-trivial = all but the initial state")
+		r.Set("rule", "BFS over operation histories on one real Evidence (operations incl. 5 faulty signers, the decode inputs, in-place and out-of-band claim changes, Verify as an operation); state = history, deduplicated by a canonical key read from the real object (claims getters, replaced/failed flags, envelope payload/protected, signature class); invariants of C19 evaluated in every state; distinct = distinct canonical states; non-trivial = all but the initial state")
 		r.Set("distinct_nontrivial", max64(res.States-1, 0))
-		r.Set("bounds", map[string]any{"operations": 33, "keyed_search": "to fixpoint", "undeduplicated_depth": d})
+		r.Set("bounds", map[string]any{"operations": c19NumOps, "keyed_search": "to fixpoint", "undeduplicated_depth": d})
 		r.Assume = append(r.Assume, "signing operations are enabled only while claims are attached (as in the statement)", "a failed decode attempt also replaces the envelope, so the 'verification fails after a failed signing attempt' clause is evaluated until the next sign or decode attempt", "ES256 keys k1/k2; signatures abstracted to 'valid for key k' in the state key")
 		_ = mcbor.Encode
 	}
